@@ -13,6 +13,12 @@ Proof.
 Qed.
 Lemma skey_eqb_refl : forall a, skey_eqb a a = true.
 Proof. intro a. apply skey_eqb_eq. reflexivity. Qed.
+Lemma skey_eqb_sym : forall a b, skey_eqb a b = skey_eqb b a.
+Proof.
+  intros a b. destruct (skey_eqb a b) eqn:E.
+  - apply skey_eqb_eq in E. subst. symmetry. apply skey_eqb_refl.
+  - symmetry. destruct (skey_eqb b a) eqn:E2; [apply skey_eqb_eq in E2; subst; rewrite skey_eqb_refl in E; discriminate|reflexivity].
+Qed.
 Lemma skey_eqb_neq : forall a b, skey_eqb a b = false <-> a <> b.
 Proof.
   intros a b. split.
@@ -66,6 +72,37 @@ Proof.
       apply skey_eqb_eq in E0. subst k0. contradiction.
     + apply (IH _ _ _ Qr E k Hk).
 Qed.
+
+(* the fuel of the model is enough: pruning never runs out of fuel *)
+Lemma remove_weight : forall k s n, st_get k s = Some n ->
+  (store_weight (st_remove k s) + node_weight n <= store_weight s)%nat.
+Proof.
+  intros k s. unfold st_remove. induction s as [|[k2 n2] r IH]; intros n E; cbn [st_get] in E; [discriminate|].
+  cbn [filter fst store_weight fold_right snd]. rewrite (skey_eqb_sym k k2).
+  destruct (skey_eqb k2 k) eqn:E2.
+  - rewrite skey_eqb_sym in E2. rewrite E2 in E. inversion E; subst. cbn [negb].
+    assert (L : (store_weight (filter (fun e => negb (skey_eqb k (fst e))) r) <= store_weight r)%nat).
+    { clear. induction r as [|e r IHr]; [cbn; lia|]. cbn [filter store_weight fold_right].
+      destruct (negb (skey_eqb k (fst e))); cbn [store_weight fold_right] in *; unfold store_weight in *; lia. }
+    unfold store_weight in *. lia.
+  - rewrite skey_eqb_sym in E2. rewrite E2 in E. cbn [negb store_weight fold_right snd]. specialize (IH n E). unfold store_weight in *. lia.
+Qed.
+
+Lemma prune_subtree_fuel : forall fuel queue s, (length queue + store_weight s <= fuel)%nat ->
+  exists s', prune_subtree fuel queue s = Ok s'.
+Proof.
+  induction fuel as [|f IH]; intros queue s L.
+  - destruct queue; [exists s; reflexivity|cbn in L; lia].
+  - destruct queue as [|k q]; [exists s; reflexivity|]. cbn [prune_subtree].
+    destruct (st_get k s) as [n|] eqn:Eg.
+    + apply IH. pose proof (remove_weight k s n Eg) as W. rewrite app_length.
+      assert (Lc : (length (child_keys k n) < node_weight n)%nat).
+      { unfold child_keys, node_weight. destruct n; cbn; try lia. rewrite map_length. lia. }
+      cbn in L. lia.
+    + apply IH. cbn in L. lia.
+Qed.
+Lemma prune_subtree_fuel_ok : forall v p s, exists s', prune_subtree (prune_fuel s) [(v, p)] s = Ok s'.
+Proof. intros. apply prune_subtree_fuel. unfold prune_fuel. cbn. lia. Qed.
 
 (* a stale part "hits" a key *)
 Definition hits (part : stale_part) (k : skey) : Prop :=
